@@ -17,7 +17,11 @@
 from collections.abc import Callable
 from typing import Any, NamedTuple
 
-from uberjob._errors import NodeError, create_chained_call_error
+from uberjob._errors import (
+    NodeError,
+    create_chained_call_error,
+    drop_internal_frames,
+)
 from uberjob._execution.run_function_on_graph import run_function_on_graph
 from uberjob._graph import get_full_call_scope
 from uberjob._plan import Plan
@@ -107,8 +111,7 @@ def prep_run_physical(
             try:
                 bound_call.value.run(node.fn, retry)
             except Exception as exception:
-                # Drop internal frames
-                exception.__traceback__ = exception.__traceback__.tb_next.tb_next
+                drop_internal_frames(exception, 2)
                 progress_observer.increment_failed(
                     section="run",
                     scope=scope,
